@@ -27,6 +27,10 @@ THEOREMS = ['Otel.C06.' + t for t in (
 HARNESSES = [Harness('s_c06', ['harness/s_c06.cc'], sdk_srcs=sdk_sources('common', 'resource', 'version', 'metrics'),
                      includes=SDK_INCLUDES)]
 H = 's_c06'
+SHIM = ['-include', 'harness/shim/detsched.h', '-DNDEBUG']
+H_SYN = Harness('d_syn', ['harness/d_sync.cc'], flags=SHIM, includes=SDK_INCLUDES, plain_srcs=['harness/shim/detsched.cc'],
+                sdk_srcs=sdk_sources('common', 'resource', 'version', 'metrics'))
+HARNESSES = HARNESSES + [H_SYN]
 RULE = ('histories of 20-200 operations (create handle / Add / Collect; 8% of them with real-thread `race` operations: 1-4 recorder threads against a collecting thread) on a real MeterProvider with 1-3 explicit readers of '
         'mixed temporality, 0-3 views, 1-3 instrument names x {counter, up-down} x {long, double}, several handles per '
         'instrument, attribute sets from a pool of 6; every collection output of model and implementation compared, and the '
@@ -118,7 +122,31 @@ def gen_history(rng, nops, shape, shape_race=False):
     return line(readers, views, ops)
 
 
+def gen_race_schedules(rng, tier):
+    """recorders racing collectors on the real SyncMetricStorage under the deterministic scheduler (Engine D)"""
+    out = []
+    for _ in range(6000 if tier == 'thorough' else 500):
+        temps = rng.choice(['D', 'C', 'DC', 'DD', 'CD'])
+        nrec = rng.randrange(1, 4); adds = rng.randrange(1, 4); ncol = rng.randrange(1, 4)
+        nth = nrec + len(temps)
+        n = rng.randrange(20, 160)
+        if rng.random() < 0.5:
+            sched = [rng.randrange(nth) for _ in range(n)]
+        else:
+            cur = rng.randrange(nth); sched = []
+            for _k in range(n):
+                if rng.random() < 0.25:
+                    cur = rng.randrange(nth)
+                sched.append(cur)
+        out.append(Case(f'syn {temps} {nrec} {adds} {ncol} ; ' + ' ; '.join(f't{t}' for t in sched), 'd_syn', ('race-schedule', temps)))
+    return out
+
+
 def generate(rng, tier):
+    return _generate(rng, tier) + gen_race_schedules(rng, tier)
+
+
+def _generate(rng, tier):
     big = tier == 'thorough'
     out = []
     n = 60000 if big else 5000
@@ -174,6 +202,16 @@ def effective(kind, v):
 
 
 def oracle(case, out):
+    if case.line.startswith('syn '):
+        if out.startswith('CRASH'):
+            return ('recorded-concurrently-with-collections/no-crash', out)
+        m = re.search(r'done=(\d) rec=(-?\d+)((?: r\d+=-?\d+)*)$', out)
+        if not m or m.group(1) != '1':
+            return ('recorded-concurrently-with-collections/terminates', out[-120:])
+        for r, v in re.findall(r' r(\d+)=(-?\d+)', m.group(3)):
+            if v != m.group(2):
+                return ('recorded-concurrently-with-collections', f'recorded {m.group(2)}, reader {r} was given {v} in total')
+        return None
     if out.startswith('CRASH'):
         return ('never-crashes', out)
     toks = case.line.split(' ')
@@ -390,3 +428,13 @@ LEVEL_NOTE = ('Trusted: Lean kernel (axioms propext/Quot.sound/Classical.choice 
               'exercised by this check. int64 overflow and inexact double sums are outside the generated range. Attribute-set '
               'identity and the cardinality limit are C08.')
 DESIGN_REF = 'DESIGN.md section 4, C06; Appendix D'
+
+
+def model_line(case, out):
+    return case.line
+
+
+def agree(case, out, mout):
+    if case.line.startswith('syn '):
+        return out.split(' ; ')[-1] == mout      # only the schedule-independent summary is predicted
+    return out == mout
